@@ -52,18 +52,18 @@ impl From<Xyz> for Argb {
         let b_lin = xyz.x * ZB[0] + xyz.y * ZB[1] + xyz.z * ZB[2];
 
         Argb {
-            r: r_lin.compute_argb_gamma(),
-            g: g_lin.compute_argb_gamma(),
-            b: b_lin.compute_argb_gamma(),
+            r: r_lin.compute_argb_gamma_expanded(),
+            g: g_lin.compute_argb_gamma_expanded(),
+            b: b_lin.compute_argb_gamma_expanded(),
         }
     }
 }
 
 impl From<Argb> for Xyz {
     fn from(argb: Argb) -> Self {
-        let r_gamma = argb.r.compute_argb_gamma_expanded();
-        let g_gamma = argb.g.compute_argb_gamma_expanded();
-        let b_gamma = argb.b.compute_argb_gamma_expanded();
+        let r_gamma = argb.r.compute_argb_gamma();
+        let g_gamma = argb.g.compute_argb_gamma();
+        let b_gamma = argb.b.compute_argb_gamma();
 
         Xyz {
             x: r_gamma * RR[0] + g_gamma * RR[1] + b_gamma * RR[2],
